@@ -5,7 +5,8 @@ patch="$1"; prop="$2"; tier="${3:-quick}"
 cd /repo || exit 2
 if [ -n "$(git status --porcelain)" ]; then echo "/repo not clean" >&2; exit 2; fi
 git apply "$patch" || { echo "patch does not apply" >&2; exit 2; }
-cd /verif && ./run.sh "$prop" "$tier" 2>&1 | grep -v '^  \[' | grep -E "^(VIOLATION|OK|FAIL|  key=|verif:)" | cut -c1-220 | awk -v n=${SEED_LINES:-12} 'NR<=n'
+out=$(mktemp -d /tmp/seedtest.XXXXXX)
+cd /verif && VERIF_OUT="$out" ./run.sh "$prop" "$tier" 2>&1 | grep -v '^  \[' | grep -E "^(VIOLATION|OK|FAIL|  key=|verif:)" | cut -c1-220 | awk -v n=${SEED_LINES:-12} 'NR<=n'
 rc=${PIPESTATUS[0]}
-git -C /repo checkout -- . ; git -C /repo status --porcelain
+rm -rf "$out"; git -C /repo checkout -- . ; git -C /repo status --porcelain
 echo "exit=$rc"
